@@ -663,13 +663,17 @@ def insert_loop_specs(text, specs, fn_name):
                 raise ExtractError(f"anchor lost: loop {n} of {fn_name} (function has {len(pos)} loops)")
             ins[pos[n - 1][1]] = specs[n]
         else:
-            _, head, optional = n
-            pat = [t.text for t in sig(tokenize(head))]
+            _, head, optional = n[:3]
+            alt = n[3] if len(n) > 3 else None
             hits = []
-            for (kw, brace) in pos:
-                hdr = [t.text for t in toks[kw:brace] if t.kind not in ("ws", "comment")]
-                if hdr[:len(pat)] == pat:
-                    hits.append(brace)
+            for h in ([head] + ([alt] if alt else [])):
+                pat = [t.text for t in sig(tokenize(h))]
+                for (kw, brace) in pos:
+                    hdr = [t.text for t in toks[kw:brace] if t.kind not in ("ws", "comment")]
+                    if hdr[:len(pat)] == pat:
+                        hits.append(brace)
+                if hits:
+                    break
             if len(hits) == 0 and optional:
                 continue
             if len(hits) != 1:
